@@ -27,6 +27,11 @@ def main():
         tier = args[i + 1]
         del args[i:i + 2]
     allc = "--all-checks" in args
+    only = None  # --checks C01,C04: run exactly these checks (exploration; results are not recorded)
+    if "--checks" in args:
+        i = args.index("--checks")
+        only = args[i + 1].split(",")
+        del args[i:i + 2]
     names = [a for a in args if not a.startswith("--")]
     sd = os.path.join(ROOT, "seeded")
     if not names:
@@ -38,7 +43,8 @@ def main():
         d = os.path.join(sd, name)
         meta = json.load(open(os.path.join(d, "meta.json")))
         prop = meta.get("property", name.split("-")[0])
-        results[name] = {}  # results of earlier runs of this change are superseded
+        if only is None:
+            results[name] = {}  # results of earlier runs of this change are superseded
         wt = tempfile.mkdtemp(prefix="rs_%s_" % name, dir="/tmp")
         os.rmdir(wt)
         r = sh(["git", "-C", "/repo", "worktree", "add", "--detach", wt, "HEAD"])
@@ -52,7 +58,7 @@ def main():
                 continue
             # "judged_by": the change was written against `property`, but the clause it breaks is owned by another
             # property's check (recorded with the reason in meta.json when the delivery was confirmed)
-            checks = sorted(registry.CHECKS) if allc else meta.get("judged_by", [prop])
+            checks = only if only else sorted(registry.CHECKS) if allc else meta.get("judged_by", [prop])
             for c in checks:
                 if c not in registry.CHECKS:
                     print("%-8s %s: check not built yet" % (name, c))
@@ -66,7 +72,7 @@ def main():
                         first = l.strip()[:220]
                         break
                 caught = r.returncode == 1 and bool(viol)
-                results.setdefault(name, {})["%s/%s" % (c, tier)] = {
+                (results.setdefault(name, {}) if only is None else {})["%s/%s" % (c, tier)] = {
                     "caught": caught, "rc": r.returncode, "violation_lines": len(viol), "first": first,
                     "wall_s": round(time.time() - t0, 1), "repo_head": head}
                 print("%-8s %s/%s: %s (%d VIOLATION lines, %.0fs) %s" % (name, c, tier, "CAUGHT" if caught else "missed",
@@ -75,7 +81,10 @@ def main():
         finally:
             sh(["git", "-C", "/repo", "worktree", "remove", "--force", wt])
             shutil.rmtree(wt, ignore_errors=True)
-        json.dump(results, open(resp, "w"), indent=1, sort_keys=True)
+        if only is None:
+            json.dump(results, open(resp, "w"), indent=1, sort_keys=True)
+    if only is not None:
+        return 0
     write_table(results, os.path.join(sd, "RESULTS.md"))
     return 0
 
